@@ -249,6 +249,9 @@ func (t *Target) HealthCheckCompleted(success bool) {
 			case TargetStateAdding:
 				t.state = TargetStateHealthy
 				becameHealthy = true
+			case TargetStateDraining:
+				// Drain restores the previous state when it finishes; until
+				// then the target must keep refusing new requests.
 			default:
 				t.state = TargetStateHealthy
 			}
